@@ -1,4 +1,4 @@
-import JjModel.Lemmas.DiffHunks
+import JjModel.Lemmas.DiffCompact
 /-!
   C03 — Content diffs partition their inputs deterministically.
 
@@ -7,22 +7,6 @@ import JjModel.Lemmas.DiffHunks
 -/
 namespace JjModel.C03
 open JjModel.Diff
-
-/-- Well-formed unchanged regions for the given inputs: every region has one range per input, and on
-every side the ranges start at `0`, satisfy `lo ≤ hi`, do not overlap, are sorted, and the last one
-ends at the input's length.  (`regionsWFb` is the same thing as a Boolean; the driver evaluates it
-on the model's regions for every request of the correspondence run.) -/
-structure RegionsWF (inputs : List Bytes) (regions : List Region) : Prop where
-  arity : ∀ r ∈ regions, r.length = inputs.length
-  sides : ∀ i, i < inputs.length → sideOK (inputs.getD i []).length (side i regions) = true
-
-theorem regionsWF_iff (inputs : List Bytes) (regions : List Region) :
-    RegionsWF inputs regions ↔ regionsWFb inputs regions = true := by
-  simp only [regionsWFb, Bool.and_eq_true, List.all_eq_true, List.mem_range, beq_iff_eq]
-  exact ⟨fun h => ⟨h.arity, h.sides⟩, fun h => ⟨h.1, h.2⟩⟩
-
-instance (inputs : List Bytes) (regions : List Region) : Decidable (RegionsWF inputs regions) :=
-  decidable_of_iff _ (regionsWF_iff inputs regions).symm
 
 /-- **Reconstruction, range form.**  For well-formed regions the byte ranges of side `i` across the
 hunk stream concatenate to the whole input `i`. -/
